@@ -568,6 +568,8 @@ class Gen:
         ops = self.ops
         names = list(ops)
         op = rng.choices(names, [ops[k] for k in names])[0]
+        if trk.closed and self.unacked[ep] and rng.random() < 0.5:
+            op = 'ack'          # applications typically still work off received data after the close
         live = [st for st in trk.streams.values() if st.state != 'closed']
         fn = getattr(self, '_op_' + op)
         fn(ep, e, trk, live)
@@ -1075,6 +1077,8 @@ class Gen:
                     return
             self.call(ep, 'increment_flow_control_window', inc=inc, sid=tsid)
         elif k == 8:
+            if self.P.get('no_over_ack'):
+                return      # applications that acknowledge more than they received are outside C05's premise
             self.call(ep, 'acknowledge_received_data', n=rng.choice([0, 1, 100, -1, 2 ** 31]), sid=sid)
         elif k == 9:
             key = rng.choice(list(BAD_SETTING_VALUES))
